@@ -78,6 +78,14 @@ CHECKS = {
          "exhaustive enumeration of LossLessSwap over all scale pairs 0..18 x an input lattice x 8 ratios against exact rational arithmetic, plus explicit-state exhaustive search over ERC20 conversions (both directions, swap-to-native hook) with a store-backed fault-injecting EVM (<= 1 fault per conversion) and fee-token swaps at three ratios on the real token keeper",
          "Kernel: 0 <= burned <= offered, minted*10^s_in <= burned*ratio*10^s_out, equality and unconvertible dust at ratio 1. Search: every conversion moves exactly the amount on both ledgers and keeps native+ERC20 supply constant; any failure (insufficient balance, blocked receiver, injected EVM call error / VM failure / wrong credited amount / balanceOf error) leaves both ledgers unchanged; fee swaps never burn more than offered, never mint more than worth, supplies move by exactly burned/minted, module account empty.",
          "DESIGN.md §3 C10"),
+ "C12": ("model_checking",
+         "explicit-state exhaustive search with 13 module drivers (record, coinswap, farm x2, htlc x2, token, nft, mt x2, service, oracle x2) wrapped by a genesis round-trip oracle evaluated in every reached state at the block boundary: export -> module's own validation -> InitGenesis on a second application instance with emptied stores -> export again (byte fixpoint) -> first begin-block -> query comparison on the original object ids; second variant after the modules' prepare-for-zero-height step",
+         "In every reachable state of the drivers (bounded depth): the exported genesis (auth, bank and the module's) passes the module's ValidateGenesis, InitGenesis does not panic, the second export equals the first, and pools / stakes and pending rewards / open HTLCs and asset supplies / tokens and burn tallies / NFT classes, collections, owners, supply / MT classes, tokens, balances / service definitions, bindings, contexts, earned fees / feeds with their values / records by original id answer identically after re-import.",
+         "DESIGN.md §3 C12"),
+ "C18": ("model_checking",
+         "exhaustive enumeration of the PRNG over a lattice of block hashes, times, requesters and seeds, plus explicit-state exhaustive search over request (plain and oracle-seeded, intervals 1..3, two requesters)/respond (valid, malformed, error)/block sequences on the real random+service keepers with a pending-set reference model compared through the queries in every state",
+         "Kernel: result in [0,1) with exactly 20 fractional digits, a function of its inputs only. Search: each request is fulfilled exactly once in the begin-block following height h+n (oracle requests when the seed arrives, never on a malformed seed or timeout), is absent from the pending queue afterwards, the stored number equals the PRNG of (previous app hash, block time, requester, seed) and reads back unchanged in every later state; several requests due at one height from two requesters and from one requester in different blocks are covered.",
+         "DESIGN.md §3 C18"),
 }
 NOT_YET = "check not built yet in this phase of the work (see DESIGN.md §6 change log); not claimed"
 
